@@ -35,6 +35,8 @@ func c13Env() map[string]any {
 	return map[string]any{
 		"n": 5, "k": 2, "f": 1.5, "s": "str", "e": "", "t": true, "b": false, "ns": "42",
 		"sp1": "a b", "sp2": "a  b", "up": "A  b",
+		// variables whose names strconv would take for a boolean or a float
+		"T": 2, "nan": 4, "F": "eff", "eq3": "a===b", "ne3": "a!==b", "amp2": "a && b", "q3": "a ? b : c",
 		"m":  map[string]any{"k": "mk", "l": []any{"x", "y"}, "n": 7},
 		"l":  []int{10, 20},
 		"st": c13Struct{Field: "SF", Num: 3},
@@ -551,6 +553,9 @@ func c13Stages() []c13Stage {
 		{"double", func(v c13V) (c13V, bool) { i, ok := num(v); return c13V{T: "int", I: i * 2}, ok }},
 		{"addn(3)", func(v c13V) (c13V, bool) { i, ok := num(v); return c13V{T: "int", I: i + 3}, ok }},
 		{"addn(k)", func(v c13V) (c13V, bool) { i, ok := num(v); return c13V{T: "int", I: i + 2}, ok }},
+		{"addn(T)", func(v c13V) (c13V, bool) { i, ok := num(v); return c13V{T: "int", I: i + 2}, ok }},
+		{"addn(nan)", func(v c13V) (c13V, bool) { i, ok := num(v); return c13V{T: "int", I: i + 4}, ok }},
+		{"prefix(F)", func(v c13V) (c13V, bool) { s, ok := str(v); return c13V{T: "string", S: "eff" + s}, ok }},
 		{`addn("4")`, func(v c13V) (c13V, bool) { i, ok := num(v); return c13V{T: "int", I: i + 4}, ok }},
 		{"shout", func(v c13V) (c13V, bool) { s, ok := str(v); return c13V{T: "string", S: strings.ToUpper(s) + "!"}, ok }},
 		{`prefix("p-")`, func(v c13V) (c13V, bool) { s, ok := str(v); return c13V{T: "string", S: "p-" + s}, ok }},
@@ -588,6 +593,9 @@ func init() {
 			inits := []c13E{
 				{Src: "n", V: c13V{T: "int", I: 5}}, {Src: "s", V: c13V{T: "string", S: "str"}}, {Src: "ns", V: c13V{T: "string", S: "42"}},
 				{Src: "t", V: c13V{T: "bool", B: true}}, {Src: "e", V: c13V{T: "string", S: ""}}, {Src: "zz", V: c13V{T: "nil"}}, {Src: "m.k", V: c13V{T: "string", S: "mk"}},
+				// a literal or a function call as the head of a pipe
+				{Src: `"abc"`, V: c13V{T: "string", S: "abc"}}, {Src: `'q r'`, V: c13V{T: "string", S: "q r"}}, {Src: "7", V: c13V{T: "int", I: 7}},
+				{Src: "double(n)", V: c13V{T: "int", I: 10}}, {Src: "shout(s)", V: c13V{T: "string", S: "STR!"}},
 			}
 			maxLen := 2
 			if tier == "thorough" {
@@ -653,6 +661,18 @@ func init() {
 			emit(&c13Case{Part: "pipe", Expr: "isbig(n)", Shape: "call", Want: "bool:true"})
 			emit(&c13Case{Part: "pipe", Expr: "n | . > 3 ? 'big' : 'small'", Shape: "pipe-dot-expr", Want: "string:big"})
 			emit(&c13Case{Part: "pipe", Expr: "n | double | . > 3", Shape: "pipe-dot-expr", Want: "bool:true"})
+			// string literals that contain operator text
+			for _, e := range []struct{ expr, want string }{
+				{`eq3 == 'a===b'`, "bool:true"}, {`eq3 === 'a===b'`, "bool:true"}, {`eq3 == "a==b"`, "bool:false"}, {`ne3 == 'a!==b'`, "bool:true"}, {`ne3 !== 'a!==b'`, "bool:false"},
+				{`amp2 == 'a && b'`, "bool:true"}, {`amp2 == 'a && b' ? 'y' : 'n'`, "string:y"}, {`q3 == 'a ? b : c'`, "bool:true"}, {`s | prefix('a===b')`, "string:a===bstr"},
+				{`s | prefix('x || y')`, "string:x || ystr"}, {`s | prefix('a ? b : c')`, "string:a ? b : cstr"}, {`zz | default('n/a >= 1')`, "string:n/a >= 1"},
+			} {
+				if strings.Contains(e.expr, " | ") {
+					emit(&c13Case{Part: "pipe", Expr: e.expr, Shape: "literal-arg:operator-text", Want: e.want})
+					continue
+				}
+				emit(&c13Case{Part: "expr", Expr: e.expr, Shape: "literal-with-operator-text", Want: e.want})
+			}
 			// look-alike pairs on one engine
 			alike := []string{
 				`sp2 == 'a  b'`, `sp2 == 'a b'`, `sp1 == 'a b'`, `sp1 == 'a  b'`, `sp2 == "a  b"`, `sp2=='a  b'`, ` sp2 == 'a  b' `, `sp2  ==  'a  b'`,
